@@ -67,10 +67,60 @@ def effective_flags(spec):
             for k in DOCUMENTED_DEFAULTS}
 
 
-def expected_release(identity, sp_view):
+# ---- entity categories: the release rules of the category profiles the library ships modules for, written down
+# here from the profiles themselves (SWAMID entity category release, REFEDS R&S, GEANT Data Protection Code of
+# Conduct) - the oracle never reads saml2_tophat.entity_category.*
+EC_RE = "http://www.swamid.se/category/research-and-education"
+EC_SFS = "http://www.swamid.se/category/sfs-1993-1153"
+EC_RS = "http://refeds.org/category/research-and-scholarship"
+EC_EU = "http://www.swamid.se/category/eu-adequate-protection"
+EC_NREN = "http://www.swamid.se/category/nren-service"
+EC_HEI = "http://www.swamid.se/category/hei-service"
+EC_COCO = "http://www.geant.net/uri/dataprotection-code-of-conduct/v1"
+_EC_NAME = ["givenName", "displayName", "sn", "cn"]
+_EC_ORG = ["c", "o", "co", "norEduOrgAcronym", "schacHomeOrganization", "schacHomeOrganizationType"]
+_EC_OTHER = ["eduPersonPrincipalName", "eduPersonScopedAffiliation", "mail", "eduPersonAssurance"]
+# profile -> [(categories the SP must ALL have, attributes, only those the SP marks as required)]
+EC_PROFILES = {
+    "swamid": [((), ["eduPersonTargetedID"], False),
+               ((EC_SFS,), ["norEduPersonNIN", "eduPersonAssurance"], False),
+               ((EC_RE, EC_EU), _EC_NAME + _EC_ORG + _EC_OTHER, False),
+               ((EC_RE, EC_NREN), _EC_NAME + _EC_ORG + _EC_OTHER, False),
+               ((EC_RE, EC_HEI), _EC_NAME + _EC_ORG + _EC_OTHER, False),
+               ((EC_RS,), ["eduPersonTargetedID", "eduPersonPrincipalName", "mail", "displayName", "givenName", "sn",
+                           "eduPersonScopedAffiliation"], False)],
+    "refeds": [((), ["eduPersonTargetedID"], False),
+               ((EC_RS,), ["eduPersonPrincipalName", "eduPersonScopedAffiliation", "mail", "givenName", "sn",
+                           "displayName"], False)],
+    "edugain": [((), ["eduPersonTargetedID"], False),
+                ((EC_COCO,), ["eduPersonPrincipalName", "eduPersonScopedAffiliation", "eduPersonAffiliation", "mail",
+                              "displayName", "cn", "schacHomeOrganization"], True)],
+}
+EC_ATTR_POOL = sorted(set(a for rules in EC_PROFILES.values() for _, al, _ in rules for a in al) - {"eduPersonTargetedID"})
+
+
+def ec_allowed(profiles, sp_view):
+    """Lower-case names of the attributes the category profiles entitle this SP to."""
+    have = set(sp_view.get("entity_category") or [])
+    required = set(n.lower() for n in (sp_view.get("req_attrs") or []))
+    allowed = set()
+    for prof in profiles:
+        for need, attrs, only_required in EC_PROFILES[prof]:
+            if all(c in have for c in need):
+                for a in attrs:
+                    if not only_required or a.lower() in required:
+                        allowed.add(a.lower())
+    return allowed
+
+
+def expected_release(identity, sp_view, ec_profiles=None):
     """What an IdP that knows the SP through `sp_view` releases of `identity` (documented: only what the SP's
-    metadata asks for, when it asks for anything; a missing required attribute refuses the answer).
+    metadata asks for, when it asks for anything; a missing required attribute refuses the answer; with an
+    entity-category release policy: only what the SP's categories entitle it to).
     -> (released identity | None when undecided, names asked for (lower case) | None, refusal expected)"""
+    if ec_profiles:
+        allowed = ec_allowed(ec_profiles, sp_view)
+        return {k: v for k, v in identity.items() if k.lower() in allowed}, allowed, False
     req, opt = list(sp_view.get("req_attrs") or []), list(sp_view.get("opt_attrs") or [])
     if not req and not opt:
         return identity, None, False
@@ -175,6 +225,9 @@ def base_config(spec):
             "name": spec["name"],
             "service": {"sp": svc},
         }
+        if spec.get("entity_category"):
+            # the entity categories the SP claims in the EntityAttributes of its generated metadata
+            cnf["entity_category"] = list(spec["entity_category"])
     if spec.get("str_bools"):
         # booleans of the service section spelled as the strings "true" / "false" (Config.load_special accepts both)
         for k_, v_ in list(svc.items()):
